@@ -639,6 +639,9 @@ func c04Run(w *W) {
 			return
 		}
 		seen[key] = true
+		if strings.Contains(key, "\\\n") {
+			return // text inside line continuations is a documented exclusion of the property
+		}
 		if !w.Mine() || w.TimeUp() {
 			return
 		}
